@@ -46,6 +46,7 @@ type Engine struct {
 	knownOpen  map[string]bool
 	overlayFiles []string
 	loadTime   time.Duration
+	cpuSem     chan struct{}
 }
 
 func (e *Engine) fnStat(fn *ssa.Function) *fnStat {
@@ -234,7 +235,13 @@ func (e *Engine) explore(harness string, cfg ExploreCfg) *Summary {
 				active++
 				mu.Unlock()
 
+				if e.cpuSem != nil {
+					e.cpuSem <- struct{}{}
+				}
 				res := e.runPath(fn, harness, job, pf, cfg.Concrete, cfg.ConcretePicks)
+				if e.cpuSem != nil {
+					<-e.cpuSem
+				}
 
 				mu.Lock()
 				active--
